@@ -1266,6 +1266,15 @@ def gt_alias(ctx: Ctx) -> RuleResult:
     r.ob(ok1, {"tag resolved before id": ok1})
     if not ok1:
         r.violate("BaseDAG.alias_to_ids: id is tried before tag", f.loc(b), "documented: a tag wins over an id of the same value", None)
+    # the id branch is taken only for an id the DAG holds: membership must be a conjunct of its test, not an alternative
+    idt = b.body[id_i].test
+    conj = idt.values if isinstance(idt, ast.BoolOp) and isinstance(idt.op, ast.And) else [idt]
+    member = any(norm_src(c_) == f"{p} in self.exec_nodes" for c_ in conj)
+    r.ob(member, {"id branch requires": norm_src(idt)})
+    if not member:
+        r.violate("BaseDAG.alias_to_ids: the id branch does not require the id to be a node of the DAG", f.loc(b.body[id_i]),
+                  "an unknown string alias is taken for an id: the selection fails with KeyError (or silently selects nothing) instead of "
+                  "the documented ValueError", norm_src(idt))
     raises = [s for s in b.body if isinstance(s, ast.Raise)]
     ok2 = bool(raises) and "ValueError" in norm_src(raises[-1]) and b.body.index(raises[-1]) > id_i
     r.ob(ok2, {"unknown alias refused": ok2})
